@@ -145,6 +145,7 @@ def novel_products(cmd, rng, cap=S.CAP, limit=6000):
 
 def random_args(cmd, rng, cap=S.CAP, force=None):
     a = {}
+    pool = gen.related_pool(rng) if rng.random() < 0.1 else None  # arguments that are equal / adjacent / double one another
     for name, (kind, width, d) in cmd.args.items():
         if kind == "bs":
             if d is S.REQ:
@@ -154,13 +155,18 @@ def random_args(cmd, rng, cap=S.CAP, force=None):
     for name, (kind, width, d) in cmd.args.items():
         if kind == "u":
             sem = MEANINGFUL.get((cmd.name, name)) or MEANINGFUL.get((cmd.xfer, name))
-            a[name] = rng.choice(sem) if sem and rng.random() < 0.3 else gen.rand_value(rng, width)
+            if pool is not None and width >= 8 and rng.random() < 0.8:
+                a[name] = gen.related_value(rng, width, pool)
+            else:
+                a[name] = rng.choice(sem) if sem and rng.random() < 0.3 else gen.rand_value(rng, width)
         elif kind in ("alloc", "tl", "cdtl"):
             unit = {"alloc": 1, "tl": a.get("blocksize") or 1, "cdtl": 3072}[kind]
             hi = min((1 << width) - 1, cap // unit)
             r = rng.random()
             sv = gen.source_value(rng, width, hi=hi)
-            if sv is not None:
+            if pool is not None and rng.random() < 0.8 and 0 <= (pv := rng.choice(pool)) <= hi:
+                a[name] = pv
+            elif sv is not None:
                 a[name] = sv
             elif r < 0.2:
                 a[name] = rng.choice(_cap_values(gen.boundary(width), unit, cap))
